@@ -16,6 +16,13 @@ CLAIMED = {
         note="Decides the bijection's structural necessary conditions; relabelling invariance of physics (relational, value level) is not decided. IndexInfo::operator< hash ordering is noted, not armed.",
         technique="loop-nest shape analysis + branch-fact must-dataflow over clang CFG (custom libTooling extractor)",
         ref="DESIGN.md §3 C18"),
+    "C17": dict(
+        text="Static analysis for the three UB classes the anchored mechanisms can exhibit: (R1) typestate of every Eigen sparse InnerIterator in the library (accessed only after its operator bool "
+             "was tested since construction / last ++, with per-return-value summaries for functions taking iterators by reference); (R2) first/last-element access or address of a possibly empty "
+             "sequence, and every pointer handed to an MPI collective; (R3) coherence between a bounds guard and the exclusive extent of what it protects. All CFG paths, both build configurations.",
+        note="Not a proof of absence of UB: arithmetic overflow, use before prepare/compute, pointer lifetimes and UB outside these mechanisms are not decided. Trusts Eigen/libstdc++ semantics; one class-invariant assumption listed in checks/c17.py.",
+        technique="typestate must-dataflow over clang CFG with interprocedural summaries + guard/extent entailment (difference-bound closure)",
+        ref="DESIGN.md §3 C17"),
 }
 
 NOT_YET = {}
